@@ -128,6 +128,12 @@ def run(chk):
     stats.update(pstats)
     stats["model_comparisons"] = stats.get("model_comparisons", 0) + pstats["parser_model_comparisons"]
     show_dis = show_dis + pdis
+    # the lexer with its error recovery: the lexer errors are the model's; every other error starts at a token or at EOF
+    import lex_model
+    ldis, lstats = lex_model.compare(texts, gos)
+    stats.update(lstats)
+    stats["model_comparisons"] += lstats["lexer_model_comparisons"]
+    show_dis = show_dis + ldis
     stats["model_disagreements"] = len(show_dis)
     unknown = [f for f in fails if not f[4]]
     known = [f for f in fails if f[4]]
